@@ -121,3 +121,60 @@ pub fn ref_index(ends: &[f64], x: f64) -> usize {
     }
     ends.len() - 1
 }
+
+/// de Bruijn sequence B(k, n) as indices 0..k (cyclic; the first n-1 symbols are appended so that every
+/// n-window occurs in the linear sequence). Standard Lyndon-word construction.
+pub fn debruijn(k: usize, n: usize) -> Vec<usize> {
+    fn db(t: usize, p: usize, k: usize, n: usize, a: &mut Vec<usize>, seq: &mut Vec<usize>) {
+        if t > n {
+            if n % p == 0 {
+                seq.extend_from_slice(&a[1..=p]);
+            }
+        } else {
+            a[t] = a[t - p];
+            db(t + 1, p, k, n, a, seq);
+            for j in a[t - p] + 1..k {
+                a[t] = j;
+                db(t + 1, t, k, n, a, seq);
+            }
+        }
+    }
+    if k == 0 {
+        return vec![];
+    }
+    let mut a = vec![0usize; k * n + 1];
+    let mut seq = vec![];
+    db(1, 1, k, n, &mut a, &mut seq);
+    let head: Vec<usize> = seq.iter().cloned().take(n - 1).collect();
+    seq.extend(head);
+    seq
+}
+
+/// reduced alphabet for long histories: below the first end, every distinct end, one interior point per cell, above the last end
+pub fn reduced_alphabet(ends: &[f64]) -> Vec<f64> {
+    let mut e: Vec<f64> = ends.to_vec();
+    e.sort_by(|a, b| a.partial_cmp(b).unwrap());
+    e.dedup_by(|a, b| *a == *b);
+    let mut a = vec![e[0] - 1.0];
+    for (i, &x) in e.iter().enumerate() {
+        a.push(x);
+        if i + 1 < e.len() {
+            a.push(x * 0.5 + e[i + 1] * 0.5);
+        }
+    }
+    a.push(e[e.len() - 1] + 1.0);
+    a
+}
+
+/// strictly increasing list 1..n
+pub fn iota(n: usize) -> Vec<f64> {
+    (1..=n).map(|i| i as f64).collect()
+}
+/// sizes around typical thresholds (powers of two and their neighbours, decimal round numbers)
+pub fn threshold_sizes(thorough: bool) -> Vec<usize> {
+    if thorough {
+        vec![7, 8, 9, 10, 11, 12, 15, 16, 17, 20, 31, 32, 33, 50, 63, 64, 65, 100, 127, 128, 129, 200, 255, 256, 257, 1000, 1025]
+    } else {
+        vec![8, 9, 10, 16, 17, 32, 33, 64, 65, 100, 129, 257]
+    }
+}
